@@ -162,6 +162,10 @@ class ClockSim:
         self.rhs_evals = 0
         self.free_rhs = 0
         self.runaway_cap = int(plan.get("runaway_cap", 3000000))
+        # divertor-leg tracing (TokamakEquilibrium.findLegs) has its own solve_ivp and no
+        # deadline; a normal equilibrium needs ~3e3 evaluations there
+        self.leg_rhs = 0
+        self.leg_cap = int(plan.get("leg_cap", 1000000))
 
     def _func_timeout(self, timeout, func, args=(), kwargs=None):
         kwargs = kwargs or {}
@@ -236,15 +240,31 @@ class ClockSim:
 
             return real_ivp(charged, *a, **kw)
 
+        import hypnotoad.cases.tokamak as tokmod
+
+        real_tok_ivp = tokmod.solve_ivp
+
+        def leg_solve_ivp(fun, *a, **kw):
+            def counted(*fa, **fkw):
+                clk.leg_rhs += 1
+                if clk.leg_rhs > clk.leg_cap:
+                    raise Runaway(f"more than {clk.leg_cap} ODE evaluations while tracing "
+                                  "divertor legs (findLegs has no bound)")
+                return fun(*fa, **fkw)
+
+            return real_tok_ivp(counted, *a, **kw)
+
         func_timeout.func_timeout = self._func_timeout
         PsiContour.refinePoint = refine_point
         eqmod.solve_ivp = solve_ivp
+        tokmod.solve_ivp = leg_solve_ivp
         try:
             yield self
         finally:
             func_timeout.func_timeout = real_ft
             PsiContour.refinePoint = real_rp
             eqmod.solve_ivp = real_ivp
+            tokmod.solve_ivp = real_tok_ivp
 
     def counters(self):
         return {"timeouts_started": self.timeouts_started, "timeout_fired": self.fired,
